@@ -11,7 +11,8 @@
          preserved by new / update / merge and by whole runs;
      (B) the no-panic / in-bounds theorems of the other properties' developments, re-exported below
          under C03_reexport_* names (framing parsers and reader loop C01, writer C02, argument iterator C18,
-         time sort C10, file-transfer plugin incl. its allocation bound C17, remote dispatcher C15).
+         time sort C10, file-transfer plugin incl. its allocation bound C17, remote dispatcher C15,
+         low-mark reader C04, archive volume chain C20).
    What is only SEARCHED (harness/src/bin/c03.rs, isolated worker processes, whole chain): text rendering,
    control-message decoding, ECU/APID/CTID statistics, the non-verbose / SOME/IP / CAN / rewrite / muniic /
    anonymize plugins, the ASC / logcat / generic-log converters, filters' regex engines, real allocation
@@ -22,7 +23,7 @@
    gives at most 2^32 * 10^6 + 2^32 < 2^53, the repaired text converters at most i64::MAX + 8.3e18). *)
 From Coq Require Import List NArith Bool Lia.
 From AdltV Require Import Base.Res Base.MachInt Lifecycle.Model Crash.LifecycleChk Crash.LifecycleChkProofs.
-From AdltV Require Properties.C01 Properties.C02 Properties.C10 Properties.C15 Properties.C17 Properties.C18.
+From AdltV Require Properties.C01 Properties.C02 Properties.C04 Properties.C10 Properties.C15 Properties.C17 Properties.C18 Properties.C20.
 Import ListNotations.
 Open Scope N_scope.
 
@@ -177,6 +178,27 @@ Proof.
   destruct (Properties.C15.C15_one_reply_no_crash st h) as (st' & ws & E & El & _). exists st', ws. split; assumption.
 Qed.
 
+(* C04: the low-mark buffered reader: construction and every sequence of fill_buf/consume/read/seek, under every
+   read-size schedule of the source, without panic (indexing, copy_within, usize arithmetic) *)
+Theorem C03_reexport_reader_no_panic data sched capacity low (ops : list Reader.LowMark.op) :
+  0 < low -> low + 4096 <= capacity -> capacity <= usizemax -> Reader.LowMark.nlen data <= usizemax ->
+  Forall (Reader.LowMarkSpec.op_wf capacity) ops ->
+  exists r0 evs r',
+    Reader.LowMark.new_reader {| Reader.LowMark.s_rest := data; Reader.LowMark.s_sched := sched |} capacity low = Ok r0 /\
+    Reader.LowMark.run_now r0 ops = Ok (evs, r').
+Proof.
+  intros H1 H2 H3 H4 H5.
+  destruct (Properties.C04.C04_reader_refines_stream data sched capacity low ops H1 H2 H3 H4 H5) as (r0 & evs & r' & E1 & E2 & _).
+  exists r0, evs, r'. split; assumption.
+Qed.
+(* C20: the chain of archive volumes: every session of reads and seeks, without panic *)
+Theorem C03_reexport_volume_chain_no_panic (datas : list (list N)) (ops : list Archive.Chain.op) :
+  N.of_nat (length (concat datas)) <= MachInt.u64max ->
+  exists rs, Archive.Chain.chain_session datas ops = Ok rs.
+Proof.
+  intros H. destruct (Properties.C20.C20_chain_refines_concat datas ops H) as (rs & E & _). exists rs. exact E.
+Qed.
+
 Print Assumptions C03_detector_arith_no_panic.
 Print Assumptions C03_detector_keeps_ranges.
 Print Assumptions C03_detector_arith_no_panic_2pow63.
@@ -200,3 +222,5 @@ Print Assumptions C03_reexport_sort_no_panic.
 Print Assumptions C03_reexport_file_transfer_no_panic.
 Print Assumptions C03_reexport_file_transfer_alloc_bounded.
 Print Assumptions C03_reexport_remote_no_crash.
+Print Assumptions C03_reexport_reader_no_panic.
+Print Assumptions C03_reexport_volume_chain_no_panic.
